@@ -71,6 +71,7 @@ WellKinded(s) ==
 Families(edit) ==
   CASE edit = "strop" -> {"TypeMismatch"}
     [] edit = "missinglabel" -> {"LabelNotDefined"}
+    [] edit = "foreignlabel" -> {"LabelNotDefined"}      \* the label exists, but in another procedure / in the main module
     [] edit = "argcount" -> {"ArgumentCountMismatch"}
     [] edit = "byreftype" -> {"ArgumentTypeMismatch"}
     [] edit = "duplicate" -> {"DuplicateDefinition", "DuplicateLabel"}
